@@ -327,8 +327,8 @@ func (c *Check) Finish(verifDir string, explanation string, notDecided []string)
 			"callees outside the module (stdlib, gofork asn1, rpc/ndr, aescts, goidentity, gorilla) behave as documented",
 			"rendered access paths identify memory by path, not by value: two loads of the same path are assumed to see the same value unless a rule states otherwise",
 		}, c.assume...),
-		"wall_s":      time.Since(c.start).Seconds(),
-		"violations":  nViol,
+		"wall_s":     time.Since(c.start).Seconds(),
+		"violations": nViol,
 	}
 	eb, _ := json.MarshalIndent(ev, "", " ")
 	os.MkdirAll(filepath.Join(verifDir, "evidence"), 0o755)
